@@ -18,7 +18,26 @@ def _err(e):
     return {"raised": type(e).__name__, "msg": str(e)[:160]}
 
 def impl(case):
+    if case["kind"] == "adaptive":
+        return impl_adaptive(case)
     return impl_solve(case) if case["kind"] == "solve" else impl_run(case)
+
+def impl_adaptive(case):
+    """support stream: run(solver='scipy', rtol, atol) on x' = k*x + c; the harness compares with the closed form"""
+    import numpy as np
+    from pyr import reset_pyrates
+    reset_pyrates()
+    try:
+        from pyrates import OperatorTemplate, NodeTemplate, CircuitTemplate
+        op = OperatorTemplate(name="op", equations=["x' = k*x + c"], variables={"x": f"output({float(Fr(case['x0']))})",
+                              "k": float(Fr(case["k"])), "c": float(Fr(case["c"]))})
+        circ = CircuitTemplate(name="c", nodes={"a": NodeTemplate(name="n", operators=[op])})
+        res = circ.run(simulation_time=float(Fr(case["T"])), step_size=float(Fr(case["dt"])), sampling_step_size=float(Fr(case["dts"])),
+                       solver="scipy", method=case["method"], rtol=case["rtol"], atol=case["atol"], outputs={"x": "a/op/x"},
+                       in_place=False, verbose=False, clear=True, float_precision="float64", backend="default")
+        return {"index": [_fr(t) for t in res.index.values], "values": [float(v) for v in np.asarray(res["x"].values).reshape(-1)]}
+    finally:
+        reset_pyrates()
 
 def impl_solve(case):
     import numpy as np
@@ -69,7 +88,11 @@ def impl_run(case):
     reset_pyrates()
     try:
         from pyrates import OperatorTemplate, NodeTemplate, CircuitTemplate
-        op = OperatorTemplate(name="op", equations=["x' = k*x + c"], variables={"x": "output(0.0)", "k": 0.0, "c": 0.0})
+        inp = case.get("inp")
+        if inp:     # a time-dependent term: extrinsic input u_k = b + a*k on one node (read with the step counter)
+            op = OperatorTemplate(name="op", equations=["x' = k*x + c + u"], variables={"x": "output(0.0)", "k": 0.0, "c": 0.0, "u": "input(0.0)"})
+        else:
+            op = OperatorTemplate(name="op", equations=["x' = k*x + c"], variables={"x": "output(0.0)", "k": 0.0, "c": 0.0})
         nodes = {f"n{i}": NodeTemplate(name=f"n{i}", operators={op: {"k": float(Fr(n["k"])), "c": float(Fr(n["c"])), "x": float(Fr(n["x0"]))}})
                  for i, n in enumerate(case["nodes"])}
         circ = CircuitTemplate(name="c", nodes=nodes)
@@ -79,6 +102,8 @@ def impl_run(case):
                   float_precision="float64", backend=case.get("backend", "default"))
         if case["dts"] is not None:
             kw["sampling_step_size"] = float(Fr(case["dts"]))
+        if inp:
+            kw["inputs"] = {f"n{inp['node']}/op/u": np.array([float(inp["b"] + inp["a"] * k) for k in range(inp["n"])], dtype=np.float64)}
         try:
             res = circ.run(**kw)
         except (IndexError, ZeroDivisionError, ValueError) as e:
@@ -103,7 +128,10 @@ def to_lin(case):
                 [Fr(x) for x in case["vt"]], [Fr(x) for x in case["y0"]])
     n = len(case["nodes"])
     A = [[Fr(case["nodes"][i]["k"]) if i == j else Fr(0) for j in range(n)] for i in range(n)]
-    return A, [Fr(x["c"]) for x in case["nodes"]], [Fr(0)] * n, [Fr(0)] * n, [Fr(x["x0"]) for x in case["nodes"]]
+    b, vt = [Fr(x["c"]) for x in case["nodes"]], [Fr(0)] * n
+    if case.get("inp"):
+        b[case["inp"]["node"]] += case["inp"]["b"]; vt[case["inp"]["node"]] = Fr(case["inp"]["a"])
+    return A, b, [Fr(0)] * n, vt, [Fr(x["x0"]) for x in case["nodes"]]
 
 def py_round(q):
     fl = q.numerator // q.denominator
@@ -218,6 +246,8 @@ def gen_run(rng):
     backend = rng.choice(["default"] * 7 + ["torch", "jax", "jax"])
     case = dict(kind="run", solver="euler" if backend == "torch" else rng.choice(["euler", "heun"]), backend=backend, dt=str(dt), dts=None if dts is None else str(dts), nodes=nodes,
                 cols=cols, vectorize=rng.random() < 0.5, aliased=True)
+    with_inp = backend == "default" and rng.random() < 0.35
+    inp_node, inp_a, inp_b, inp_extra = rng.randrange(nn), rng.choice([-2, -1, 1, 1, 2, 3]), rng.randint(-3, 3), rng.choice([0, 0, 1, 3])
     while True:
         T = x * dt
         nrows = py_round(T / step)
@@ -231,6 +261,8 @@ def gen_run(rng):
         else:
             cutoff = rng.choice([Fr(-1), T, T + 1])
         case["T"] = str(T); case["cutoff"] = str(cutoff)
+        if with_inp:
+            case["inp"] = dict(node=inp_node, a=inp_a, b=inp_b, n=max(2, py_round(T / dt) + inp_extra))   # a one-sample array is squeezed to 0-d: loud IndexError (reported)
         if exact_ok(case):
             return case
         x = Fr(int(x) // 2) + (x - int(x))
@@ -238,6 +270,34 @@ def gen_run(rng):
             x = Fr(1)
             for n in case["nodes"]:
                 n["k"] = "0"
+
+def gen_adaptive(rng):
+    # first_step = dt: keep |k|*dt <= 1/4 -- embedded error estimators have exact zeros at special h*lambda (Bogacki-Shampine
+    # RK23: -z^3(1+z)/48, zero at h*lambda = -1, where scipy accepts an O(1e-1) step at any tolerance; not PyRates' doing)
+    dts = Fr(1, 2 ** rng.choice([1, 2, 3]))
+    k = rng.choice([Fr(-2), Fr(-3, 2), Fr(-1), Fr(-1, 2), Fr(-1, 4)])
+    dt = dts
+    while abs(k) * dt > Fr(1, 4):
+        dt /= 2
+    return dict(kind="adaptive", solver="scipy", method=rng.choice(["RK45", "RK45", "DOP853", "RK23"]), rtol=1e-10, atol=1e-12,
+                k=str(k), c=str(_dy(rng, -8, 8, 4)), x0=str(_dy(rng, 1, 8, 4)),
+                T=str(dts * rng.randint(2, 12)), dt=str(dt / rng.choice([1, 2])), dts=str(dts), cutoff="0", t0=0)
+
+ADAPTIVE_TOL = 1e-9
+def adaptive_bad(case, out):
+    """Support stream, decided by a tolerance on an exactly known solution (the 'approximates the true solution to the
+    solver's tolerance' half of C03): with rtol=1e-10, atol=1e-12 the returned samples of x' = k*x + c must be within
+    1e-9 of (x0 + c/k) e^{kt} - c/k at t = j*dts, j < round(T/dts), and the index must hold exactly those times."""
+    import math
+    if not (isinstance(out, dict) and "values" in out):
+        return True
+    k, c, x0, dts = (float(Fr(case[n])) for n in ("k", "c", "x0", "dts"))
+    n = py_round(Fr(case["T"]) / Fr(case["dts"]))
+    if len(out["values"]) != n or [Fr(t) for t in out["index"]] != [j * Fr(case["dts"]) for j in range(n)]:
+        return True
+    err = max(abs(v - ((x0 + c / k) * math.exp(k * j * dts) - c / k)) for j, v in enumerate(out["values"]))
+    out["max_abs_error"] = err
+    return not err < ADAPTIVE_TOL
 
 def store_step(case):
     dts = Fr(case["dts"]) if case["dts"] is not None else Fr(case["dt"])
@@ -329,6 +389,8 @@ def known_outcome(r):
 # ---------------------------------------------------------------------------------------------- shrinking
 def fails(ctx, case, tag, strict=False):
     r = run_impl(ctx, "c03", "impl", [case], nworkers=1)[0]
+    if case["kind"] == "adaptive":
+        return adaptive_bad(case, r), r
     if not known_outcome(r):
         return True, r
     res = model_compare(ctx, [case], [r], tag)
@@ -337,6 +399,8 @@ def fails(ctx, case, tag, strict=False):
     return bool(res[1]), r
 
 def shrink(ctx, case):
+    if case["kind"] == "adaptive":
+        return case
     best, budget = case, 10
     def attempt(cand, tag):
         nonlocal best, budget
@@ -371,11 +435,14 @@ def check(ctx):
         rp = json.load(open(ctx.replay))
         cases = [rp["case"]] if "case" in rp else []
     else:
-        cases = load_corpus("C03") + [gen_solve(ctx.rng) for _ in range(n_solve)] + [gen_run(ctx.rng) for _ in range(n_run)]
+        cases = (load_corpus("C03") + [gen_solve(ctx.rng) for _ in range(n_solve)] + [gen_run(ctx.rng) for _ in range(n_run)] +
+                 [gen_adaptive(ctx.rng) for _ in range(12 if ctx.tier == "quick" else 120)])
     cases = [{k: v for k, v in c.items() if k not in ("id", "comment")} for c in cases]
     outs = run_impl(ctx, "c03", "impl", cases)
-    crashed = [i for i, r in enumerate(outs) if not known_outcome(r)]
-    good = [i for i in range(len(cases)) if i not in crashed]
+    adapt = [i for i, c in enumerate(cases) if c["kind"] == "adaptive"]
+    bad_adapt = [i for i in adapt if adaptive_bad(cases[i], outs[i])]
+    crashed = [i for i, r in enumerate(outs) if i not in adapt and not known_outcome(r)]
+    good = [i for i in range(len(cases)) if i not in crashed and i not in adapt]
     res = model_compare(ctx, [cases[i] for i in good], [outs[i] for i in good], "main")
     badI, badS, nofit, noframe, nomult = [[good[i] for i in l] for l in res]
     # dts not a positive integer multiple of dt is outside the property's quantifier: there only model = code is demanded
@@ -387,6 +454,9 @@ def check(ctx):
     noframe = [i for i in noframe if i not in nofit]
     out_of_scope += [i for i in noframe if i in badS]
     badS = [i for i in badS if i not in noframe]
+    badS = badS + bad_adapt
+    ctx.note(f"support stream (tolerance decision on a closed-form solution): {len(adapt)} scipy runs with rtol=1e-10, atol=1e-12, "
+             f"max error {max([outs[i].get('max_abs_error', 0) for i in adapt if isinstance(outs[i], dict)] or [0]):.2e} (bound {ADAPTIVE_TOL}), failing {len(bad_adapt)}")
     for name, l in zip(GUARDS, (nofit,)):
         for i in l:
             if i not in badI:        # attributed to a known finding only when the code fails in exactly the modelled way
@@ -403,13 +473,14 @@ def check(ctx):
     conclude(ctx, cases=cases, impl_out=outs, bad_spec=badS, bad_impl=badI, crashed=crashed, problem=problem, guard_viol=guard_viol,
              spec_name="Solver.spec_run/spec_rows (row k = k*store_step-th Euler/Heun iterate at time k*dts, rows with time < cutoff dropped)",
              impl_name="Solver.run_model/solve", shrink=lambda c: shrink(ctx, c), witness_check=witness_check,
-             show=lambda c: (lambda r: dict(implementation_output=r, model_output=model_outputs(ctx, c, r, "show") if known_outcome(r) else None))(fails(ctx, c, "show")[1]))
+             show=lambda c: (lambda r: dict(implementation_output=r, model_output=model_outputs(ctx, c, r, "show") if known_outcome(r) and c["kind"] != "adaptive" else None))(fails(ctx, c, "show")[1]))
     nt = {canon(c) for c in cases if nontrivial(c)}
     outcome_hist = {}
     for r in outs:
-        k = "rows" if isinstance(r, dict) and "rows" in r else (r.get("raised") or r.get("err")) if isinstance(r, dict) else "?"
+        k = "rows" if isinstance(r, dict) and ("rows" in r or "values" in r) else (r.get("raised") or r.get("err")) if isinstance(r, dict) else "?"
         outcome_hist[k] = outcome_hist.get(k, 0) + 1
-    hist = dict(kind=dict(solve=sum(1 for c in cases if c["kind"] == "solve"), run=sum(1 for c in cases if c["kind"] == "run")),
+    hist = dict(kind=dict(solve=sum(1 for c in cases if c["kind"] == "solve"), run=sum(1 for c in cases if c["kind"] == "run"),
+                          adaptive_support=len(adapt), run_with_time_dependent_input=sum(1 for c in cases if c.get("inp"))),
                 backend={b: sum(1 for c in cases if c.get("backend", "default") == b) for b in ("default", "torch", "jax")},
                 solver=dict(euler=sum(1 for c in cases if c["solver"] == "euler"), heun=sum(1 for c in cases if c["solver"] == "heun")),
                 store_step_gt_1=sum(1 for c in cases if store_step(c) > 1), cutoff_gt_0=sum(1 for c in cases if Fr(c.get("cutoff", 0)) > 0),
@@ -432,4 +503,5 @@ def check(ctx):
                    assumptions=["T >= 0, dt > 0, dts > 0; the theorems about values hold under the decidable guards rows_fit and frame_ok (>= 1 stored sample); "
                                 "outside them the model predicts the error class and the real code is required to raise exactly that",
                                 "IEEE rounding is outside the model: the model computes in Qc",
+                                "support stream: 'approximates to the solver's tolerance' is decided by a tolerance (1e-9 at rtol=1e-10, atol=1e-12) on linear systems with closed-form solutions; this is a numerical decision, not a theorem",
                                 "theorems are about the default backend's loops; the torch Euler loop (direct calls and run) and the jax Euler/Heun loops (run, autonomous models) are in the correspondence stream only: torch = the same model, jax = spec_rows without the IndexError class; adaptive solvers are not covered by any theorem"])
